@@ -7,6 +7,8 @@ pub uninterp spec fn missing_report_ok(hashes: Seq<Byte32>) -> bool;
 pub uninterp spec fn was_requested(hash: Seq<u8>) -> bool;     // the hash was in the user's fetch table
 pub uninterp spec fn hash_proven(x: Seq<u8>) -> bool;     // the hash of a proven header (introduction rule def_hash_proven)
 // C16 evidence: the peer's requested entries were marked timeout (re-armed) / the given missing list was recorded
+pub uninterp spec fn blocks_idle(index: PeerIndex) -> bool;     // the peer was read without a pending GetBlocksProof request
+pub uninterp spec fn txs_idle(index: PeerIndex) -> bool;        // ... without a pending GetTransactionsProof request
 pub uninterp spec fn headers_rearmed(index: PeerIndex) -> bool;
 pub uninterp spec fn txs_rearmed(index: PeerIndex) -> bool;
 pub uninterp spec fn missing_marked(hashes: Seq<Byte32>) -> bool;
@@ -18,17 +20,31 @@ pub open spec fn all_hashes_proven(hashes: Seq<Byte32>) -> bool {
     forall|i: int| 0 <= i < hashes.len() ==> hash_proven((#[trigger] hashes[i])@)
 }
 impl Peers {
+    // a peer read without a pending request of a kind is evidence that it is idle for that kind (C16: a pending request must not be
+    // overwritten - its fetch entries could no longer be re-armed).  Timeless evidence: see DESIGN.md (stateless peer table).
     #[verifier::external_body]
-    pub fn get_peer(&self, index: &PeerIndex) -> (r: Option<Peer>) { unimplemented!() }
+    pub fn get_peer(&self, index: &PeerIndex) -> (r: Option<Peer>)
+        ensures r.is_some() ==> (r.unwrap().blocks_proof_request.is_none() ==> blocks_idle(*index))
+                             && (r.unwrap().txs_proof_request.is_none() ==> txs_idle(*index)) { unimplemented!() }
+    #[verifier::external_body]
+    pub fn has_fetching_info(&self) -> (r: bool) { unimplemented!() }
+    #[verifier::external_body]
+    pub fn get_headers_to_fetch(&self) -> (r: Vec<Byte32>) { unimplemented!() }
+    #[verifier::external_body]
+    pub fn get_txs_to_fetch(&self) -> (r: Vec<Byte32>) { unimplemented!() }
+    #[verifier::external_body]
+    pub fn fetching_idle_headers(&self, block_hashes: &[Byte32], now: u64) { unimplemented!() }
+    #[verifier::external_body]
+    pub fn fetching_idle_txs(&self, tx_hashes: &[Byte32], now: u64) { unimplemented!() }
     // GATE (C16 "never lost when the serving peer times out or disconnects"): the fetch entries of a request can be re-armed
     // (marked timeout, hence re-sent) only THROUGH the peer's pending request; so the request may be dropped only with the
     // evidence that its entries were re-armed or that the response answered them (removed as fetched / marked missing)
     #[verifier::external_body]
     pub fn update_blocks_proof_request(&self, index: PeerIndex, request: Option<packed::GetBlocksProof>, should_get_blocks: bool)
-        requires request.is_none() ==> headers_release_ok(index) { unimplemented!() }
+        requires request.is_none() ==> headers_release_ok(index), request.is_some() ==> blocks_idle(index) { unimplemented!() }
     #[verifier::external_body]
     pub fn update_txs_proof_request(&self, index: PeerIndex, request: Option<packed::GetTransactionsProof>)
-        requires request.is_none() ==> txs_release_ok(index) { unimplemented!() }
+        requires request.is_none() ==> txs_release_ok(index), request.is_some() ==> txs_idle(index) { unimplemented!() }
     #[verifier::external_body]
     pub fn update_blocks_request(&self, index: PeerIndex, hashes: Option<Vec<Byte32>>) { unimplemented!() }
     #[verifier::external_body]
@@ -55,6 +71,8 @@ impl Peers {
         requires missing_report_ok(tx_hashes@) ensures missing_marked(tx_hashes@) { unimplemented!() }
 }
 impl Storage {
+    #[verifier::external_body]
+    pub fn get_tip_header(&self) -> (r: Header) { unimplemented!() }
     // GATE (C02): a header is stored as fetched only if proven (and, with an extension, only if the extra hash commits to it)
     #[verifier::external_body]
     pub fn add_fetched_header(&self, hwe: &HeaderWithExtension)
